@@ -46,7 +46,10 @@ def parse (input : Bytes) : PResult Filter :=
   | .ok (p, i) =>
   match takeN (bitsCapacity n b) i with
   | .error e => .error e
-  | .ok (bits, i) => .ok (⟨n, b, p, bits⟩, i)
+  | .ok (bits, i) =>
+    -- fix D2b: more probes than bits are refused (`ParseError::TooManyProbes`)
+    if !bits.isEmpty && p > 8 * bits.length then .error .invalid
+    else .ok (⟨n, b, p, bits⟩, i)
 
 /-- `u32::from_le_bytes([h[k], h[k+1], h[k+2], h[k+3]])`; a `ChangeHash` always has 32 bytes, so
     the indexing cannot fail — short lists read as zero bytes only to keep the function total. -/
